@@ -1,8 +1,18 @@
 import GwbVerif.Properties.C07
+import GwbVerif.Properties.C07Depth
 open Gwb
 #print axioms C07_cull_pretest_only
 #print axioms C07_no_member_discarded
 #print axioms C07_cull_equiv
+#print axioms C07_depth_piece_invariant
+#print axioms C07_depth_walk_bound
+#print axioms C07_local_le_maxima
+#print axioms C07_depth_cutoff_sound_partial
+#print C07_depth_cutoff_sound_full
 #check @C07_cull_pretest_only
 #check @C07_no_member_discarded
 #check @C07_cull_equiv
+#check @C07_depth_piece_invariant
+#check @C07_depth_walk_bound
+#check @C07_local_le_maxima
+#check @C07_depth_cutoff_sound_partial
